@@ -24,11 +24,13 @@ FLOORS = {
     "quick": {"evaluations": 1500, "distinct": 200,
               "counters": {"mode_dir": 150, "mode_deflated": 150, "mode_stored": 150,
                            "templates_compared": 1500, "sets_with_inheritance_or_import": 150,
-                           "shared_loader_sequences": 100}},
+                           "shared_loader_sequences": 100, "name_dependent_autoescape_compares": 100,
+                           "multi_location_compares": 300}},
     "thorough": {"evaluations": 40000, "distinct": 4000,
                  "counters": {"mode_dir": 3000, "mode_deflated": 3000, "mode_stored": 3000,
                               "templates_compared": 40000, "sets_with_inheritance_or_import": 3000,
-                              "shared_loader_sequences": 2000}},
+                              "shared_loader_sequences": 2000, "name_dependent_autoescape_compares": 1500,
+                              "multi_location_compares": 5000}},
 }
 
 _n = 0
@@ -150,6 +152,12 @@ def check_case(ctx, case, mode, is_async, tmp):
             shutil.rmtree(target2, ignore_errors=True)
         elif os.path.exists(target2):
             os.remove(target2)
+    # (b) name-dependent configuration and several compiled locations
+    try:
+        if _n % 5 == 0:
+            check_names_and_paths(ctx, case, mode, is_async, target + ".np")
+    except Exception as e:  # harness problems must not pass silently
+        ctx.inconc(f"names/paths sub-check crashed: {type(e).__name__}: {e}")
     # the module loader lists nothing it does not have
     miss = util.capture(lambda: mod_env.get_template("definitely/not/there"))
     if os.path.isdir(target):
@@ -161,6 +169,72 @@ def check_case(ctx, case, mode, is_async, tmp):
             pass
     if miss.ok or type(miss.exc).__name__ != "TemplateNotFound":
         ctx.violation("precompiled:missing-name", f"{miss!r}", {"case": case, "mode": mode, "async": is_async})
+
+
+def check_names_and_paths(ctx, case, mode, is_async, base):
+    """select_autoescape decides by template NAME; a ModuleLoader with several compiled
+    locations resolves a name to the FIRST location that has it (documented search order)."""
+    import importlib
+
+    import jinja2
+
+    zipmode = {"dir": None, "deflated": "deflated", "stored": "stored"}[mode]
+    hot = "<b>&</b>"
+    srcs = {"page.html": "{{ v }}|{% include 'part.txt' %}|{% import 'mac.xml' as m %}{{ m.f(v) }}",
+            "part.txt": "{{ v }}", "mac.xml": "{% macro f(x) %}{{ x }}{% endmacro %}",
+            "zeta/page.txt": "{{ v }}{% include 'page.html' %}"}
+    ae = jinja2.select_autoescape(enabled_extensions=("html", "xml"), disabled_extensions=("txt",))
+    s_env = jinja2.Environment(loader=jinja2.DictLoader(srcs), autoescape=ae, enable_async=is_async)
+    t1 = base + ("_a.zip" if zipmode else "_a")
+    made = [t1]
+    try:
+        s_env.compile_templates(t1, zip=zipmode, ignore_errors=False, log_function=lambda m: None)
+        importlib.invalidate_caches()
+        m_env = jinja2.Environment(loader=jinja2.ModuleLoader(t1), autoescape=ae, enable_async=is_async)
+        for name in srcs:
+            a = util.capture(lambda: s_env.get_template(name).render(v=hot))
+            b = util.capture(lambda: m_env.get_template(name).render(v=hot))
+            ctx.ev()
+            ctx.count("name_dependent_autoescape_compares")
+            if not ((a.ok and b.ok and a.value == b.value) or (not a.ok and not b.ok and type(a.exc) is type(b.exc))):
+                ctx.violation(f"precompiled:{mode}:name-dependent-configuration",
+                              f"select_autoescape by name: template {name!r} source {a!r} vs precompiled {b!r}",
+                              {"case": case, "mode": mode, "async": is_async})
+                break
+        # several locations with overlapping names: directory names chosen so that the
+        # priority order differs from the lexicographic order
+        locs = []
+        contents = [("zz_first", {"a": "FIRST-a{% include 'b' %}", "b": "FIRST-b"}),
+                    ("mm_second", {"a": "SECOND-a", "b": "SECOND-b", "c": "SECOND-c{% include 'a' %}"}),
+                    ("aa_third", {"b": "THIRD-b", "c": "THIRD-c", "d": "{% extends 'c' %}"})]
+        for dn, tp in contents:
+            e = jinja2.Environment(loader=jinja2.DictLoader(tp), enable_async=is_async)
+            loc = base + "_" + dn + (".zip" if zipmode else "")
+            e.compile_templates(loc, zip=zipmode, ignore_errors=False, log_function=lambda m: None)
+            locs.append(loc)
+            made.append(loc)
+        importlib.invalidate_caches()
+        for order in ([0, 1, 2], [2, 1, 0], [1, 0, 2]):
+            paths = [locs[i] for i in order]
+            ml = jinja2.Environment(loader=jinja2.ModuleLoader(paths), enable_async=is_async)
+            sl = jinja2.Environment(loader=jinja2.ChoiceLoader([jinja2.DictLoader(contents[i][1]) for i in order]),
+                                    enable_async=is_async)
+            for name in ("a", "b", "c", "d", "nope"):
+                a = util.capture(lambda: sl.get_template(name).render())
+                b = util.capture(lambda: ml.get_template(name).render())
+                ctx.ev()
+                ctx.count("multi_location_compares")
+                if not ((a.ok and b.ok and a.value == b.value) or (not a.ok and not b.ok and type(a.exc) is type(b.exc))):
+                    ctx.violation(f"precompiled:{mode}:location-order",
+                                  f"ModuleLoader({[os.path.basename(p) for p in paths]}) name {name!r}: first-location-wins "
+                                  f"expects {a!r}, got {b!r}", {"case": case, "mode": mode, "async": is_async})
+                    return
+    finally:
+        for p in made:
+            if os.path.isdir(p):
+                shutil.rmtree(p, ignore_errors=True)
+            elif os.path.exists(p):
+                os.remove(p)
 
 
 def run(ctx):
